@@ -41,7 +41,9 @@ LEVEL_TEXT = ("Coq theorems over the reals about the executable Gallina model (c
               "monotone-chain stack invariant; points need the two coordinates the code reads); [G] a voxel is marked 1 iff some point lies in its padded half-open box, flags are "
               "computed voxel by voxel (multi-process = single-process function), the generated grid covers the bounding box; [G] find_ctrlpts returns the "
               "p+1 points starting at span-p and every control point with a non-zero Cox-de Boor basis function at the parameter is among them. "
-              "BOUNDED/PARTIAL: the winding-number theorem is proved only for axis-parallel rectangles (exact half-open characterisation); general simple "
+              "the winding test on every strictly convex polygon (either orientation) and every triangle: for points off the boundary wn_poly is true "
+              "exactly for the interior points, the count being +1/-1/0 (round 2, Proofs/WindingConvex.v; axis-parallel rectangles additionally with the "
+              "half-open boundary rule). BOUNDED/PARTIAL: non-convex simple "
               "polygons and the skew status for non-meeting 3-D rays are checked by the exact Fraction oracles on "
               "every run, not proved.")
 LEVEL_NOTE = ("Trusted: Coq 8.16.1 kernel incl. vm_compute; standard-library real-number axioms as printed by Print Assumptions; the model is tied "
